@@ -255,6 +255,13 @@ class Check(object):
             if q.ok():
                 g["ok"] += 1
                 continue
+            if (q.result == "unknown" or q.result is None) and q.expect == "sat" and q.info.get("twin_group") \
+                    and q.info.get("twin_lenient_unknown"):
+                # non-vacuity of this single path not decided within the budget: tolerated when the instance has a
+                # feasible path (an infeasible path only contributes vacuous obligations)
+                lenient_twins.setdefault(q.info["twin_group"], []).append(q)
+                g["ok"] += 1
+                continue
             if q.result == "unknown" or q.result is None:
                 self.inconclusive.append("%s: solver %s inconclusive (%s)" % (q.name, q.solver, q.error))
                 continue
@@ -289,7 +296,8 @@ class Check(object):
         for tg, qs in lenient_twins.items():
             if not any(q.expect == "sat" and q.result == "sat" and q.info.get("twin_group") == tg for q in self.queries):
                 self.inconclusive.append("harness instance %s: no feasible path at all -- vacuous" % tg)
-            self.notes.append("instance %s: %d explored path(s) proved infeasible by the solver (vacuous obligations)"
+            self.notes.append("instance %s: %d explored path(s) infeasible or with undecided feasibility (their "
+                              "obligations may be vacuous); the instance has at least one feasible path"
                               % (tg, len(qs)))
         for m in self.validation_mismatches:
             self.inconclusive.append("translator validation mismatch: " + m)
